@@ -497,11 +497,11 @@ def s8_compaction_fold(src_text, stats):
             "pub fn verif_compact_fold(d0: Option<ReplicationDelta>, d1: Option<ReplicationDelta>, d2: Option<ReplicationDelta>, current_time: u64, tombstone_ttl: Duration) -> (HashMap<String, ReplicationDelta>, u64) {\n"
             "    let mut deltas_before = 0u64;\n"
             "    let mut key_to_delta: HashMap<String, ReplicationDelta> = HashMap::new();\n"
+            "    let mut tombstones_removed = 0u64;\n"
             "    " + cutoff + "\n"
             "    if let Some(delta) = d0 " + arm + "\n"
             "    if let Some(delta) = d1 " + arm + "\n"
             "    if let Some(delta) = d2 " + arm + "\n"
-            "    let mut tombstones_removed = 0u64;\n"
             "    " + retain + "\n"
             "    (key_to_delta, tombstones_removed)\n}\n")
 
